@@ -11,6 +11,10 @@ pub const DOT: u32 = 99;
 pub const CARET: u32 = 90;
 pub const PIPE: u32 = 91;
 pub const DOLLAR: u32 = 92;
+pub const LBR: u32 = 93;
+pub const RBR: u32 = 94;
+pub const STAR: u32 = 95;
+pub const QMARK: u32 = 96;
 
 #[derive(Deserialize, Serialize, Clone, Debug, PartialEq)]
 pub struct IdCrit {
@@ -93,6 +97,10 @@ pub fn id_char(t: u32) -> char {
         CARET => '^',
         PIPE => '|',
         DOLLAR => '$',
+        LBR => '[',
+        RBR => ']',
+        STAR => '*',
+        QMARK => '?',
         _ => panic!("driver: unknown id token {}", t),
     }
 }
@@ -106,6 +114,10 @@ pub fn text_char(t: u32) -> char {
         CARET => '^',
         PIPE => '|',
         DOLLAR => '$',
+        LBR => '[',
+        RBR => ']',
+        STAR => '*',
+        QMARK => '?',
         _ => panic!("driver: unknown text token {}", t),
     }
 }
@@ -118,6 +130,11 @@ pub fn syn(k: &str, cls: &str, w: &[u32], w2: &[u32]) -> Vec<u32> {
         (_, "prefix") => [&[CARET][..], w].concat(),
         (_, "suffix") => [w, &[DOLLAR][..]].concat(),
         (_, "alt") => [w, &[PIPE][..], w2].concat(),
+        (_, "any") => vec![DOT, STAR],
+        (_, "opt") => [w, &[QMARK][..]].concat(),
+        (_, "altempty") => [w, &[PIPE][..]].concat(),
+        (_, "empty") => vec![CARET, DOLLAR],
+        (_, "nostar") => [&[CARET, LBR, CARET][..], w, &[RBR, STAR, DOLLAR][..]].concat(),
         _ => panic!("driver: unknown criterion class {} {}", k, cls),
     }
 }
@@ -424,6 +441,16 @@ pub fn pad4(w: &[u32]) -> Vec<u32> {
 pub fn gen_id(rng: &mut Rng, nchars: u64, lit_only: bool, max_lit: u64, auto: bool) -> IdCrit {
     if lit_only || rng.chance(1, 2) {
         return IdCrit { k: "lit".into(), cls: "".into(), w: word(rng, 1, max_lit, nchars), w2: vec![] };
+    }
+    if rng.chance(1, 4) {
+        // regexes that match the empty word
+        let cls = *rng.pick(&["any", "opt", "altempty", "empty", "nostar"]);
+        let w = match cls {
+            "opt" | "nostar" => word(rng, 1, 1, nchars),
+            "altempty" => word(rng, 1, 2, nchars),
+            _ => vec![],
+        };
+        return IdCrit { k: "re".into(), cls: cls.into(), w, w2: vec![] };
     }
     loop {
         let cls = *rng.pick(&["contains", "prefix", "suffix", "alt"]);
